@@ -225,6 +225,10 @@ var canon = []struct {
 	{".attention.key_length", 4}, {".attention.value_length", 4}, {".attention.sliding_window", 4},
 	{".attention.cross_attention_layers", 9}, {".pooling_type", 4}, {".vision.image_size", 4}, {".vision.patch_size", 4},
 	{".vision.num_channels", 4}, {".vision.max_num_tiles", 4},
+	// keys the decoder or the server derives / consults itself (a file may carry them, with any type)
+	{"general.parameter_count", 10}, {"general.quantization_version", 4}, {"general.basename", 8}, {"general.size_label", 8},
+	{"tokenizer.ggml.model", 8}, {"tokenizer.ggml.pre", 8}, {"tokenizer.ggml.bos_token_id", 4}, {"tokenizer.ggml.eos_token_id", 4},
+	{"tokenizer.ggml.add_bos_token", 7}, {"tokenizer.ggml.add_eos_token", 7},
 }
 
 func canonType(key string) (uint32, bool) {
@@ -709,6 +713,9 @@ func Gen(t *rapid.T) Case {
 		arch + ".attention.head_count", arch + ".attention.head_count_kv", arch + ".attention.key_length",
 		arch + ".attention.sliding_window", arch + ".attention.cross_attention_layers", arch + ".pooling_type",
 		arch + ".vision.block_count", arch + ".vision.image_size", arch + ".vision.patch_size",
+		"general.parameter_count", "general.quantization_version", "general.basename", "general.size_label",
+		"tokenizer.ggml.model", "tokenizer.ggml.pre", "tokenizer.ggml.bos_token_id", "tokenizer.ggml.eos_token_id",
+		"tokenizer.ggml.add_bos_token", "tokenizer.ggml.add_eos_token",
 	}
 	seen := map[string]bool{}
 	for _, k := range known {
